@@ -83,6 +83,10 @@ type sysRemote struct {
 	EchoNamed     func(ctx context.Context, tag int, c Count, n Name) (Count, error)
 	Two           func(ctx context.Context, tag int, f cbI, g cbI) (string, error)
 	IterDerived   func(ctx context.Context, tag int, cb cbT) (string, error)
+	// fifth generation
+	Mixed         func(ctx context.Context, tag int, f cbI, n int, g cbI, s string) (string, error) // function arguments between plain ones
+	EchoSession   func(ctx context.Context, tag int, s Session) (Session, error)                    // a type whose pointer has its own JSON encoding
+	PanicGate     func(ctx context.Context, tag int) error                                          // waits for its gate, then panics with an error value of a slice type
 	Sub           struct {
 		Deep struct {
 			Ping func(ctx context.Context, tag int) (int, error)
@@ -229,6 +233,8 @@ func canon(v any) string {
 }
 
 type sysLocal struct {
+	Svc  sysGreeter // a nested service held through an interface-typed field
+	Kv   sysKV      // ... and one whose type is a named map type with methods
 	w    *sysWorld
 	node string
 	Sub  sysSub
@@ -400,6 +406,68 @@ func (l *sysLocal) Delayed(ctx context.Context, tag int, cb cbI) (int, error) {
 	v, err := cb(ctx, tag)
 	l.w.log(SysEvent{Node: l.node, Kind: "ret", Method: "Delayed", Tag: tag, Data: fmt.Sprint(v), Err: errText(err)})
 	return v, err
+}
+// Cred's POINTER has a JSON encoding of its own (it redacts the token); a Cred VALUE is encoded field by
+// field. What crosses the link is what the serializer makes of the value the handler returned.
+type Cred struct {
+	User  string
+	Token string
+}
+
+func (c *Cred) MarshalJSON() ([]byte, error) {
+	return json.Marshal(map[string]string{"User": c.User, "Token": "***"})
+}
+
+type Session struct {
+	Cred Cred
+	N    int
+}
+
+func (l *sysLocal) EchoSession(ctx context.Context, tag int, s Session) (Session, error) {
+	l.inv(ctx, "EchoSession", tag, s)
+	return s, nil
+}
+
+type sysGreeter interface {
+	Hello(ctx context.Context, tag int) (int, error)
+}
+type sysHello struct {
+	w    *sysWorld
+	node string
+}
+
+func (h sysHello) Hello(ctx context.Context, tag int) (int, error) {
+	h.w.log(SysEvent{Node: h.node, Kind: "inv", Method: "Svc.Hello", Tag: tag})
+	return tag + 4000, nil
+}
+
+type sysKV map[string]int
+
+func (m sysKV) Size(ctx context.Context, tag int) (int, error) { return len(m) + tag, nil }
+
+// an error type whose values cannot be compared with == (a slice): legal, e.g. a list of field errors
+type listErr []error
+
+func (e listErr) Error() string { return fmt.Sprintf("%d errors", len(e)) }
+
+func (l *sysLocal) PanicGate(ctx context.Context, tag int) error {
+	l.inv(ctx, "PanicGate", tag, nil)
+	<-l.w.gate(tag)
+	panic(listErr{errors.New("first"), errors.New("second")})
+}
+
+// Mixed: function arguments and plain arguments interleaved; every one must arrive in its own position
+func (l *sysLocal) Mixed(ctx context.Context, tag int, f cbI, n int, g cbI, s string) (string, error) {
+	l.inv(ctx, "Mixed", tag, []any{n, s})
+	a, err := f(ctx, n)
+	if err != nil {
+		return "", err
+	}
+	b, err := g(ctx, n+1)
+	if err != nil {
+		return "", err
+	}
+	return fmt.Sprintf("%d,%d,%d,%s", a, b, n, s), nil
 }
 func (l *sysLocal) CbFirst(ctx context.Context, tag int, cb cbI, v any) error {
 	l.inv(ctx, "CbFirst", tag, nil)
@@ -885,7 +953,8 @@ type SysNode[T any] struct {
 }
 
 func NewSysNode[T any](w *sysWorld, name string) *SysNode[T] {
-	local := &sysLocal{w: w, node: name, Sub: sysSub{w: w, node: name, Deep: sysDeep{w: w, node: name}}}
+	local := &sysLocal{w: w, node: name, Sub: sysSub{w: w, node: name, Deep: sysDeep{w: w, node: name}},
+		Svc: sysHello{w: w, node: name}, Kv: sysKV{"a": 1, "b": 2}}
 	n := &SysNode[T]{Name: name, Local: local}
 	// while a notification is being delivered, can another goroutine enumerate, and what does it see?
 	probe := func(kind, id string) {
